@@ -238,4 +238,14 @@ pub fn unix_time_as_millis() -> (r: u64) { unimplemented!() }
 // ckb_network
 pub type PeerIndex = usize;   // newtype over usize in ckb-network (SessionId); only copied and compared here
 // ===== end ckb shim =====
+// ckb_types::prelude::Pack as a trait (only needed for path calls `Pack::pack`; method calls resolve to the inherent shims)
+pub trait Pack<T> { fn pack(&self) -> T; }
+impl Pack<Byte32> for H256 {
+    #[verifier::external_body]
+    fn pack(&self) -> (r: Byte32) ensures r@ == self@ { unimplemented!() }
+}
 pub mod packed { pub use super::*; }
+// Rust guarantees an allocation is at most isize::MAX bytes; a Byte32 occupies 32 bytes
+#[verifier::external_body]
+pub broadcast proof fn axiom_byte32_slice_len(s: &[Byte32])
+    ensures #[trigger] s@.len() <= 0x3ff_ffff_ffff_ffff {}
